@@ -15,6 +15,7 @@ import (
 
 	"go.dedis.ch/kyber/v4"
 	"go.dedis.ch/kyber/v4/pairing"
+	"go.dedis.ch/kyber/v4/xof/blake2xb"
 
 	"verif/internal/gen"
 	"verif/internal/mon"
@@ -38,6 +39,7 @@ type c18Sort struct {
 	ref     c18PRef // nil: no reference model, machines are compared with each other
 	noBase  bool    // Base()/Mul(s,nil) not scheduled (unsupported by at least one machine)
 	canHash bool
+	canEmbed bool // Pick(stream) / Embed(data, stream) on a seeded stream are scheduled (all machines support them)
 	// ext returns a valid canonical external encoding of an element of this sort and its class; nil if unavailable.
 	ext func(rng *gen.Rng) (enc []byte, class string)
 }
@@ -144,6 +146,10 @@ func (st *c18Step) String() string {
 		fmt.Fprintf(&sb, " %d:p%d=dec(%x)[%s]", st.sort, st.d, st.msg, st.class)
 	case "Hash":
 		fmt.Fprintf(&sb, " %d:p%d=H(%x,dst=%q)", st.sort, st.d, st.msg, st.dst)
+	case "Embed":
+		fmt.Fprintf(&sb, " %d:p%d=Embed(%x[nil=%v],stream=%x)", st.sort, st.d, st.msg, st.msg == nil, st.dst)
+	case "Pick":
+		fmt.Fprintf(&sb, " %d:p%d=Pick(stream=%x)", st.sort, st.d, st.dst)
 	case "Pair":
 		fmt.Fprintf(&sb, " gt%d=e(p%d,q%d)", st.d, st.a, st.b)
 	}
@@ -404,6 +410,23 @@ func (L *c18Lock) gen(rng *gen.Rng) *c18Step {
 		switch {
 		case gt:
 			st.op = "Pair"
+		case srt.canEmbed && rng.IntN(2) == 0:
+			st.dst = rng.Bytes(16)
+			st.inplace = rng.IntN(3) == 0 // dirty receiver: the object held by register a
+			switch c := rng.IntN(6); c {
+			case 0:
+				st.op = "Pick"
+			case 1:
+				st.op, st.msg = "Embed", []byte{} // empty but not nil
+			case 2:
+				st.op, st.msg = "Embed", nil
+			case 3:
+				st.op, st.msg = "Embed", rng.Bytes(1+rng.IntN(8))
+			case 4:
+				st.op, st.msg = "Embed", rng.Bytes(20+rng.IntN(12)) // around EmbedLen of the 32-byte curves
+			default:
+				st.op, st.msg = "Embed", rng.Bytes(rng.IntN(64))[:0] // empty, non-nil, with spare capacity
+			}
 		case srt.canHash:
 			st.op = "Hash"
 			st.msg = rng.Bytes(rng.IntN(48))
@@ -509,6 +532,10 @@ func (L *c18Lock) execMach(m *c18Mach, st *c18Step) {
 		res = recv
 	case "Hash":
 		res = m.hash(m, s, st.msg, st.dst)
+	case "Embed":
+		res = recv.Embed(st.msg, blake2xb.New(st.dst))
+	case "Pick":
+		res = recv.Pick(blake2xb.New(st.dst))
 	case "Pair":
 		res = m.suite.Pair(m.pt[0][st.a], m.pt[1][st.b])
 	default:
